@@ -10,6 +10,17 @@ BASELINE_OFF = ("cd /repo && env -u CNES_PANDORA_VERIF /venv/bin/python -m pytes
 
 # id -> (technique, level text, level note, design ref)
 CLAIMED = {
+    "C15": (
+        "Hypothesis-generated pairs and pipelines around a multiscale step; harness-side observation of every step vs. coarse-to-fine reference rule",
+        "Exploration: generated pairs (mono/multiband, masks), num_scales 2-3, scale_factor 2-3, marge 0-2, divisible "
+        "and non-divisible intervals and legal pipelines around the multiscale step are run through pandora.run while "
+        "wrappers record, per executed step, the scale, the image size, the interval grids handed to the matching cost "
+        "(left and right) and the disparity map entering the multiscale step. Checked: executions per scale for every "
+        "step, sizes per level, coarsest interval, the per-pixel fine-interval rule (exists a coarse pixel within 1 of "
+        "the parent whose rule value matches), output sizes, right products, input datasets deep-equal before/after.",
+        "Trusted: reference in pbt/props/c15.py; floor/ceil admissible for sizes and the coarsest axis.",
+        "DESIGN.md §5 C15",
+    ),
     "C13": (
         "Metamorphic relations between runs of the real pipeline (crop/tile vs. whole image, vertical flip), exact comparison",
         "Exploration: generated pairs (tile-constructed 30-60 x 70-130, integer radiometry, masks), local pipelines "
